@@ -71,6 +71,7 @@ def family(dense=False):
     fam["asc_arg"] = [False]                     # a caller-owned list of sort directions
     fam["key_arg"] = np.array([-1, 0])          # a caller-owned array of positions (negative ones included) used as an assignment key
     fam["np_arg"] = np.arange(float(nf["n"].nest.flat_length)) + 200.0      # a caller-owned numpy array offered as flat values
+    fam["npser_arg"] = pd.Series(np.arange(float(nf["n"].nest.flat_length)) + 300.0)   # a caller-owned numpy-BACKED series offered as flat values
     fam["lists_arg"] = pd.DataFrame({"u": pd.Series(pa.array([[1], [2, 3], [], [4]], type=pa.list_(pa.int64())), dtype=pd.ArrowDtype(pa.list_(pa.int64())),
                                                      index=labels), "keep": [0, 1, 2, 3]}, index=labels)
     return fam
@@ -103,6 +104,7 @@ def ops(tmpdir):
         "pack_ser": ("pure", "ser", lambda f: pack(f["ser"], name="again")),
         "add_nested_ser": ("pure", "orig", lambda f: f["orig"].add_nested(f["ser_deep"], "extra2")),
         "with_flat_field_arg": ("pure", "ser", lambda f: f["ser"].nest.with_flat_field("w", f["np_arg"])),
+        "with_flat_field_serarg": ("pure", "ser", lambda f: f["ser"].nest.with_flat_field("w", f["npser_arg"])),
         "with_list_field": ("pure", "ser", lambda f: f["ser"].nest.with_list_field(
             "t", pa.array([[9] * k for k in f["ser"].nest.list_lengths], type=pa.list_(pa.int64())))),
         "with_filled_field": ("pure", "ser", lambda f: f["ser"].nest.with_filled_field("c", [1, 2, 3, 4])),
@@ -120,6 +122,7 @@ def ops(tmpdir):
             [{"t": [8], "f": [8.5]}, None], dtype=f["ser_deep"].dtype).array)),
         "setfield_orig_arg": ("inplace", "orig", lambda f: f["orig"].__setitem__("n.f", f["np_arg"])),
         "nest_setitem_ser_deep_arg": ("inplace", "ser_deep", lambda f: f["ser_deep"].nest.__setitem__("f", f["np_arg"])),
+        "array_set_flat_serarg": ("inplace", "ser_deep", lambda f: f["ser_deep"].array.set_flat_field("f", f["npser_arg"])),
         "setfield_new_nest": ("inplace", "orig", lambda f: f["orig"].__setitem__("m.z", f["series_arg"])),
         "loc_row_orig": ("inplace", "orig", lambda f: f["orig"].loc.__setitem__(("a", "n"), None)),
         "iloc_ser_deep": ("inplace", "ser_deep", lambda f: f["ser_deep"].iloc.__setitem__([0], pack_seq([{"t": [5], "f": [5.5]}],
@@ -144,7 +147,7 @@ MAY_SHOW = {
     "iloc_ser_deep_keyarg": {"ser_deep"}, "array_setitem_ser_deep_keyarg": {"ser_deep"}, "loc_row_orig": {"orig", "ser", "cols", "rows"},
     "iloc_ser_deep": {"ser_deep"}, "array_setitem_ser": {"ser", "orig", "cols", "rows"}, "nest_setitem_ser_deep": {"ser_deep"},
     "inplace_query_deep": {"deep"}, "inplace_sort_deep": {"deep"}, "inplace_dropna_rows": {"rows"}, "inplace_eval_deep": {"deep"},
-    "base_assign_deep": {"deep"}, "setfield_cols": {"cols"},
+    "base_assign_deep": {"deep"}, "setfield_cols": {"cols"}, "array_set_flat_serarg": {"ser_deep"},
 }
 # element writes go through the shared array object only where pandas hands out the SAME array object: orig / ser share it; row slices and
 # column selections of a frame get their own array object (take / copy), so they must NOT show it
@@ -163,6 +166,7 @@ def probe_isolated(res, fam):
         fam["orig"].iloc[0, 0] = 999.0
         fam["lists_arg"].iloc[0, 1] = 999
         fam["np_arg"][0] = 999.0
+        fam["npser_arg"].iloc[0] = 999.0
     except Exception as e:  # noqa: BLE001
         return True, f"argument probe not applicable: {type(e).__name__}"
     if snap(res) != res_before:
@@ -222,13 +226,14 @@ def run_sequence(seq, table, dense=False):
                 pass   # a no-op in this state (e.g. nothing to drop) is fine
     # whatever ran: the caller's later in-place writes into ITS OWN argument objects must not show in any frame / series
     # of the family (an operation that keeps the caller's memory instead of copying it)
-    args = ("flat_arg", "series_arg", "lists_arg", "np_arg", "key_arg", "asc_arg")
+    args = ("flat_arg", "series_arg", "lists_arg", "np_arg", "npser_arg", "key_arg", "asc_arg")
     before = {k: snap(v) for k, v in fam.items() if k not in args}
     try:
         fam["flat_arg"].iloc[0, 0] = 998.0
         fam["series_arg"].iloc[0] = 998.0
         fam["lists_arg"].iloc[0, 1] = 998
         fam["np_arg"][0] = 998.0
+        fam["npser_arg"].iloc[0] = 998.0
     except Exception:  # noqa: BLE001
         return problems
     shows = sorted(k for k in before if snap(fam[k]) != before[k])
@@ -285,5 +290,5 @@ def heap_op(name):
     table = {"setfield_orig": "HRebind 0", "setfield_orig_arg": "HRebind 0", "nest_setitem_ser_deep_arg": "HRebind 5", "iloc_ser_deep_keyarg": "HWriteCell 5", "array_setitem_ser_deep_keyarg": "HWriteCell 5", "setfield_new_nest": "HRebind 0", "loc_row_orig": "HWriteCell 0", "iloc_ser_deep": "HWriteCell 5",
              "array_setitem_ser": "HWriteCell 4", "nest_setitem_ser_deep": "HRebind 5", "inplace_query_deep": "HRebind 1",
              "inplace_sort_deep": "HRebind 1", "inplace_dropna_rows": "HRebind 2", "inplace_eval_deep": "HRebind 1",
-             "base_assign_deep": "HRebind 1", "setfield_cols": "HRebind 3"}
+             "base_assign_deep": "HRebind 1", "setfield_cols": "HRebind 3", "array_set_flat_serarg": "HWriteCell 5"}
     return f"({table[name]})" if name in table else "HPure"
